@@ -8,5 +8,5 @@ import (
 
 func TestReplay(t *testing.T) {
 	Setup()
-	vrt.ReplayMain(map[string]func(){"Harness_cancel": Harness_cancel, "Harness_sleep": Harness_sleep})
+	vrt.ReplayMain(map[string]func(){"Harness_cancel": Harness_cancel, "Harness_sleep": Harness_sleep, "Harness_wait": Harness_wait})
 }
